@@ -19,14 +19,15 @@ structure TaskLe (allow : Prop) (t t' : Task) : Prop where
   resp : ∀ r, t.response = some r → t'.response = some r
   bump : (t'.worker ≠ t.worker ∨ t'.response ≠ t.response) → t.gen < t'.gen
   drop : (t'.stage < t.stage ∨ t'.scq ≠ t.scq) → allow
+  bg : t'.background = t.background
 
 theorem TaskLe.refl (allow : Prop) (t : Task) : TaskLe allow t t :=
-  ⟨rfl, Nat.le_refl _, rfl, rfl, rfl, fun _ h => h, by simp, by simp⟩
+  ⟨rfl, Nat.le_refl _, rfl, rfl, rfl, fun _ h => h, by simp, by simp, rfl⟩
 
 theorem TaskLe.trans {allow : Prop} {a b c : Task} (h1 : TaskLe allow a b) (h2 : TaskLe allow b c) :
     TaskLe allow a c := by
   refine ⟨h2.id.trans h1.id, Nat.le_trans h1.gen h2.gen, h2.pq.trans h1.pq, h2.digest.trans h1.digest,
-    h2.dkey.trans h1.dkey, fun r h => h2.resp r (h1.resp r h), ?_, ?_⟩
+    h2.dkey.trans h1.dkey, fun r h => h2.resp r (h1.resp r h), ?_, ?_, h2.bg.trans h1.bg⟩
   · intro h
     have g1 := h1.gen; have g2 := h2.gen
     by_cases hb : b.worker ≠ a.worker ∨ b.response ≠ a.response
@@ -47,7 +48,7 @@ theorem TaskLe.trans {allow : Prop} {a b c : Task} (h1 : TaskLe allow a b) (h2 :
       · exact .inr (by rw [hb.2]; exact h)
 
 theorem TaskLe.mono {a b : Prop} (hab : a → b) {t t' : Task} (h : TaskLe a t t') : TaskLe b t t' :=
-  ⟨h.id, h.gen, h.pq, h.digest, h.dkey, h.resp, h.bump, fun x => hab (h.drop x)⟩
+  ⟨h.id, h.gen, h.pq, h.digest, h.dkey, h.resp, h.bump, fun x => hab (h.drop x), h.bg⟩
 
 /-- Key discipline of the task and operation maps. -/
 structure KeysOK (s : State) : Prop where
@@ -62,18 +63,24 @@ structure TRel (allow : Prop) (s s' : State) : Prop where
   no : s.nextOp ≤ s'.nextOp
   tasks : ∀ k t', k < s.nextTask → s'.task? k = some t' → ∃ t, s.task? k = some t ∧ TaskLe allow t t'
   ops : ∀ k o', k < s.nextOp → s'.op? k = some o' → ∃ o, s.op? k = some o ∧ o'.task = o.task
+  opm : ∀ k o o', s.op? k = some o → s'.op? k = some o' → o'.mayExistWithoutWaiters = true →
+    o.mayExistWithoutWaiters = true
+  fresh : ∀ k o', s.nextOp ≤ k → s'.op? k = some o' → o'.mayExistWithoutWaiters = true →
+    ∀ t', s'.task? o'.task = some t' → t'.background = true
 
 /-- The relation every helper satisfies: key discipline is preserved and old objects evolve monotonically. -/
 def TStep (allow : Prop) (s s' : State) : Prop := KeysOK s → KeysOK s' ∧ TRel allow s s'
 
 theorem TStep.refl (allow : Prop) (s : State) : TStep allow s s :=
-  fun hk => ⟨hk, Nat.le_refl _, Nat.le_refl _, fun _ t' _ h => ⟨t', h, TaskLe.refl _ _⟩, fun _ o' _ h => ⟨o', h, rfl⟩⟩
+  fun hk => ⟨hk, Nat.le_refl _, Nat.le_refl _, fun _ t' _ h => ⟨t', h, TaskLe.refl _ _⟩, fun _ o' _ h => ⟨o', h, rfl⟩,
+    fun _ o o' e e' hm => by rw [e] at e'; injection e' with e'; subst e'; exact hm,
+    fun k o' hk' e => by have := (hk.oname k o' e).2.1; omega⟩
 
 theorem TStep.trans {allow : Prop} {a b c : State} (h1 : TStep allow a b) (h2 : TStep allow b c) : TStep allow a c := by
   intro hk
   obtain ⟨kb, r1⟩ := h1 hk
   obtain ⟨kc, r2⟩ := h2 kb
-  refine ⟨kc, Nat.le_trans r1.nt r2.nt, Nat.le_trans r1.no r2.no, ?_, ?_⟩
+  refine ⟨kc, Nat.le_trans r1.nt r2.nt, Nat.le_trans r1.no r2.no, ?_, ?_, ?_, ?_⟩
   · intro k t' hk' ht'
     obtain ⟨tb, hb, l2⟩ := r2.tasks k t' (Nat.lt_of_lt_of_le hk' r1.nt) ht'
     obtain ⟨ta, ha, l1⟩ := r1.tasks k tb hk' hb
@@ -82,12 +89,26 @@ theorem TStep.trans {allow : Prop} {a b c : State} (h1 : TStep allow a b) (h2 : 
     obtain ⟨ob, hb, l2⟩ := r2.ops k o' (Nat.lt_of_lt_of_le hk' r1.no) ho'
     obtain ⟨oa, ha, l1⟩ := r1.ops k ob hk' hb
     exact ⟨oa, ha, l2.trans l1⟩
+  · intro k o o' e e' hm
+    have hlt := (hk.oname k o e).2.1
+    obtain ⟨ob, hb, _⟩ := r2.ops k o' (Nat.lt_of_lt_of_le hlt r1.no) e'
+    exact r1.opm k o ob e hb (r2.opm k ob o' hb e' hm)
+  · intro k o' hk' e' hm t' ht'
+    by_cases hkb : k < b.nextOp
+    · obtain ⟨ob, hb, etask⟩ := r2.ops k o' hkb e'
+      have hmb := r2.opm k ob o' hb e' hm
+      have hlt := (kb.oname k ob hb).2.2
+      rw [etask] at ht'
+      obtain ⟨tb, htb, le⟩ := r2.tasks _ t' hlt ht'
+      have := r1.fresh k ob hk' hb hmb tb htb
+      rw [le.bg]; exact this
+    · exact r2.fresh k o' (by omega) e' hm t' ht'
 
 theorem TStep.mono {a b : Prop} (hab : a → b) {s s' : State} (h : TStep a s s') : TStep b s s' := by
   intro hk
   obtain ⟨k', r⟩ := h hk
   exact ⟨k', r.nt, r.no, fun k t' h1 h2 => by
-    obtain ⟨t, e, l⟩ := r.tasks k t' h1 h2; exact ⟨t, e, l.mono hab⟩, r.ops⟩
+    obtain ⟨t, e, l⟩ := r.tasks k t' h1 h2; exact ⟨t, e, l.mono hab⟩, r.ops, r.opm, r.fresh⟩
 
 /-- General constructor: every task / operation of `s'` is an old one (related) or lies in the fresh key range. -/
 theorem TStep.intro {allow : Prop} {s s' : State}
@@ -96,18 +117,20 @@ theorem TStep.intro {allow : Prop} {s s' : State}
       (∀ k t', s'.task? k = some t' →
           (∃ t, s.task? k = some t ∧ TaskLe allow t t') ∨ (s.nextTask ≤ k ∧ k < s'.nextTask ∧ t'.id = k)) ∧
       (∀ k o', s'.op? k = some o' →
-          (∃ o, s.op? k = some o ∧ o'.task = o.task ∧ o'.name = o.name) ∨
-          (s.nextOp ≤ k ∧ k < s'.nextOp ∧ o'.name = k ∧ o'.task < s'.nextTask))) :
+          (∃ o, s.op? k = some o ∧ o'.task = o.task ∧ o'.name = o.name ∧
+            (o'.mayExistWithoutWaiters = true → o.mayExistWithoutWaiters = true)) ∨
+          (s.nextOp ≤ k ∧ k < s'.nextOp ∧ o'.name = k ∧ o'.task < s'.nextTask ∧
+            (o'.mayExistWithoutWaiters = true → ∀ t', s'.task? o'.task = some t' → t'.background = true)))) :
     TStep allow s s' := by
   intro hk
   obtain ⟨n1, n2, l1, l2, ht, ho⟩ := h hk
-  refine ⟨⟨n1, n2, ?_, ?_⟩, l1, l2, ?_, ?_⟩
+  refine ⟨⟨n1, n2, ?_, ?_⟩, l1, l2, ?_, ?_, ?_, ?_⟩
   · intro k t' e
     rcases ht k t' e with ⟨t, e0, l⟩ | ⟨_, h2, h3⟩
     · have := hk.tid k t e0; exact ⟨l.id.trans this.1, by omega⟩
     · exact ⟨h3, h2⟩
   · intro k o' e
-    rcases ho k o' e with ⟨o, e0, h1, h2⟩ | ⟨_, h2, h3, h4⟩
+    rcases ho k o' e with ⟨o, e0, h1, h2, _⟩ | ⟨_, h2, h3, h4, _⟩
     · have := hk.oname k o e0; exact ⟨h2.trans this.1, by omega, by rw [h1]; omega⟩
     · exact ⟨h3, h2, h4⟩
   · intro k t' hk' e
@@ -118,6 +141,14 @@ theorem TStep.intro {allow : Prop} {s s' : State}
     rcases ho k o' e with ⟨o, e0, h1, _⟩ | ⟨h, _⟩
     · exact ⟨o, e0, h1⟩
     · omega
+  · intro k o o' e e' hm
+    rcases ho k o' e' with ⟨o0, e0, _, _, hmm⟩ | ⟨h, _⟩
+    · rw [e] at e0; injection e0 with e0; subst e0; exact hmm hm
+    · have := (hk.oname k o e).2.1; omega
+  · intro k o' hk' e' hm
+    rcases ho k o' e' with ⟨o0, e0, _⟩ | ⟨_, _, _, _, hf⟩
+    · have := (hk.oname k o0 e0).2.1; omega
+    · exact hf hm
 
 /-- an update that leaves tasks, operations and both watermarks alone -/
 theorem TStep.of_same {allow : Prop} {s s' : State} (h1 : s'.tasks = s.tasks) (h2 : s'.ops = s.ops)
@@ -125,7 +156,7 @@ theorem TStep.of_same {allow : Prop} {s s' : State} (h1 : s'.tasks = s.tasks) (h
   apply TStep.intro; intro hk
   refine ⟨h1 ▸ hk.tnodup, h2 ▸ hk.onodup, by omega, by omega, ?_, ?_⟩
   · intro k t' e; simp only [State.task?, h1] at e; exact .inl ⟨t', e, TaskLe.refl _ _⟩
-  · intro k o' e; simp only [State.op?, h2] at e; exact .inl ⟨o', e, rfl, rfl⟩
+  · intro k o' e; simp only [State.op?, h2] at e; exact .inl ⟨o', e, rfl, rfl, id⟩
 
 /-- an update that replaces one existing task by a later version of itself -/
 theorem TStep.of_task {allow : Prop} {s s' : State} {t0 t2 : Task} (h0 : s.task? t0.id = some t0)
@@ -138,12 +169,13 @@ theorem TStep.of_task {allow : Prop} {s s' : State} {t0 t2 : Task} (h0 : s.task?
     split at e
     · rename_i hk0; subst hk0; injection e with e; subst e; exact .inl ⟨t0, h0, hle⟩
     · exact .inl ⟨t', e, TaskLe.refl _ _⟩
-  · intro k o' e; simp only [State.op?, h2] at e; exact .inl ⟨o', e, rfl, rfl⟩
+  · intro k o' e; simp only [State.op?, h2] at e; exact .inl ⟨o', e, rfl, rfl, id⟩
 
 /-- an update of operations that keeps keys, names and task pointers -/
 theorem TStep.of_ops {allow : Prop} {s s' : State} (h1 : s'.tasks = s.tasks)
     (h2 : (akeys s.ops).Nodup → (akeys s'.ops).Nodup)
-    (h2' : ∀ k o', s'.op? k = some o' → ∃ o, s.op? k = some o ∧ o'.task = o.task ∧ o'.name = o.name)
+    (h2' : ∀ k o', s'.op? k = some o' → ∃ o, s.op? k = some o ∧ o'.task = o.task ∧ o'.name = o.name ∧
+      (o'.mayExistWithoutWaiters = true → o.mayExistWithoutWaiters = true))
     (h3 : s'.nextTask = s.nextTask) (h4 : s'.nextOp = s.nextOp) : TStep allow s s' := by
   apply TStep.intro; intro hk
   refine ⟨h1 ▸ hk.tnodup, h2 hk.onodup, by omega, by omega, ?_, ?_⟩
@@ -162,7 +194,7 @@ theorem TStep.of_task' {allow : Prop} {s s' : State} {k0 : Nat} {t0 t2 : Task} (
     split at e
     · rename_i hk0; subst hk0; injection e with e; subst e; exact .inl ⟨t0, h0, hle⟩
     · exact .inl ⟨t', e, TaskLe.refl _ _⟩
-  · intro k o' e; simp only [State.op?, h2] at e; exact .inl ⟨o', e, rfl, rfl⟩
+  · intro k o' e; simp only [State.op?, h2] at e; exact .inl ⟨o', e, rfl, rfl, id⟩
 
 /-! ### facts about the pieces -/
 
@@ -178,6 +210,7 @@ theorem stage_of_resp {t : Task} {r : Resp} (h : t.response = some r) : t.stage 
 @[simp] theorem detachT_ops (t : Task) : (detachT t).ops = t.ops := by unfold detachT; split <;> rfl
 @[simp] theorem detachT_learner (t : Task) : (detachT t).learner = t.learner := by unfold detachT; split <;> rfl
 @[simp] theorem detachT_worker (t : Task) : (detachT t).worker = none := by unfold detachT; split <;> rfl
+@[simp] theorem detachT_background (t : Task) : (detachT t).background = t.background := by unfold detachT; split <;> rfl
 theorem detachT_gen_ge (t : Task) : t.gen ≤ (detachT t).gen := by
   unfold detachT; split <;> simp [bumpGen]
 theorem detachT_gen_of_worker {t : Task} (h : t.worker.isSome = true) : (detachT t).gen = t.gen := by
@@ -190,7 +223,7 @@ theorem taskLe_final (allow : Prop) {t : Task} (r : Resp) (hr : t.response = non
     TaskLe allow t (bumpGen { detachT t with learner := l, response := some r }) := by
   have := detachT_gen_ge t
   refine ⟨by simp [bumpGen], by simp [bumpGen]; omega, by simp [bumpGen], by simp [bumpGen], by simp [bumpGen],
-    by simp [hr], by intro _; simp [bumpGen]; omega, ?_⟩
+    by simp [hr], by intro _; simp [bumpGen]; omega, ?_, by simp [bumpGen]⟩
   rintro (h | h)
   · have h4 : (bumpGen { detachT t with learner := l, response := some r }).stage = 4 := stage_of_resp rfl
     have := stage_le_four t; omega
@@ -285,6 +318,6 @@ theorem TStep.of_opsSame {allow : Prop} {s s' : State} (h1 : s'.tasks = s.tasks)
   intro k o' e
   rcases h2.ops k with ⟨_, e2⟩ | ⟨o, o2, e1, e2, l⟩
   · rw [e2] at e; cases e
-  · rw [e2] at e; injection e with e; subst e; exact ⟨o, e1, l.task, l.name⟩
+  · rw [e2] at e; injection e with e; subst e; exact ⟨o, e1, l.task, l.name, l.mew⟩
 
 end BbRe.Lemmas.SchedLive
